@@ -598,6 +598,17 @@ def combinator_programs():
         [S("search-sorted"), -3, S("inc")], [S("search-sorted"), 5, L([S("i")], [S("probe"), Q(S("i")), S("i")], [S("if"), [S("="), S("i"), 3], [S("car"), 5], []])], [S("search-sorted"), STR("x"), S("inc")],
         [S("search-sorted"), 4, Q(S("nosuch"))], [S("search-sorted"), 6, Q(S("inc"))], [S("search-sorted"), 3, 5],
     ]
+    # equal? : values without structural equality (functions, quote objects) are never equal, not even to themselves, and
+    # neither is a container that holds one - the same object on both sides included
+    forms += [
+        [S("list"), [S("equal?"), S("car"), S("car")], [S("equal?"), S("inc"), S("inc")], [S("let"), [[S("f"), L([S("x")], S("x"))]], [S("equal?"), S("f"), S("f")]]],
+        [S("let"), [[S("xs"), [S("list"), 1, S("car")]]], [S("list"), [S("equal?"), S("xs"), S("xs")], [S("equal?"), [S("list"), 0, S("xs")], [S("list"), 0, S("xs")]], [S("equal?"), [S("cdr"), S("xs")], [S("cdr"), S("xs")]]]],
+        [S("let"), [[S("v"), [S("vector"), 1, S("inc")]]], [S("list"), [S("equal?"), S("v"), S("v")], [S("equal?"), [S("vector"), S("v")], [S("vector"), S("v")]]]],
+        [S("let"), [[S("m"), [S("sorted-map"), STR("a"), S("inc")]]], [S("list"), [S("equal?"), S("m"), S("m")], [S("equal?"), [S("list"), S("m")], [S("list"), S("m")]]]],
+        [S("let"), [[S("xs"), [S("list"), 1, [S("list"), 2, 3]]]], [S("list"), [S("equal?"), S("xs"), S("xs")], [S("equal?"), [S("list"), 0, S("xs")], [S("list"), 0, S("xs")]], [S("equal?"), S("xs"), [S("list"), 1, [S("list"), 2, 3]]]]],
+        [S("list"), [S("equal?"), Q(Q(S("a"))), Q(Q(S("a")))], [S("equal?"), Q(S("a")), S(":a")], [S("equal?"), Q([1, Q(S("b"))]), [S("list"), 1, Q(S("b"))]], [S("equal?"), [], Q([])], [S("equal?"), 1, 1.0]],
+        [S("let"), [[S("q"), Q(Q([1, 2]))]], [S("list"), [S("equal?"), S("q"), S("q")], [S("equal?"), [S("list"), S("q")], [S("list"), S("q")]]]],
+    ]
     # a QUOTED SYMBOL given where a function is expected names the binding of the current package, whatever the name is
     # bound to lexically at the call site (a function, a non-function, a local function)
     LOC = L([S("x"), S("&rest"), S("r")], [S("probe"), Q(S("local")), S("x")], [S("list"), Q(S("local")), S("x")])
